@@ -66,7 +66,8 @@ SCENARIO_CAP = {"quick": 40, "thorough": 3000}
 
 def instances(tier, seed):
     for i, sc in enumerate(SCENARIOS):
-        yield {"kind": "scenario", "index": i, "name": sc[0], "tset": sc[1], "N": sc[2],
+        # N + 1: every scenario also has one isolated vertex (joint degree all zeros)
+        yield {"kind": "scenario", "index": i, "name": sc[0], "tset": sc[1], "N": sc[2] + 1,
                "placement": [[k, list(vs)] for k, vs in sc[3]]}
     for tset, N, minm, maxm in PLAN[tier]:
         tops = netgen.TOPOLOGY_SETS[tset]
@@ -218,6 +219,17 @@ def run_instance(inst, tier):
                 res.executions += r1.leaves
                 res.revalidated += r1.rechecked
                 report(res, desc, r1.problems, "C11", "search_limit=1 ", step=r1, ctx=(state, names, target, 0, 1))
+            if nE <= 3 or (nE == 4 and r.successors):
+                # an exhausted partner search (all search_limit + 1 candidates unsuitable) AFTER a successful one:
+                # either in a second proposal of the same call (3 extra draws) or after an accepted swap
+                for conv, dd in ((0, 3), (1, 1)):
+                    rx = mcmc.explore_step(state, state, shapes0, names, target, dd, search_limit=1, conv_limit=conv,
+                                           max_leaves=3_000_000)
+                    res.executions += rx.leaves
+                    res.revalidated += rx.rechecked
+                    report(res, desc, rx.problems, "C11", f"search_limit=1 convergence_limit={conv} ", step=rx,
+                           ctx=(state, names, target, conv, 1))
+                    res.flags.add("exhausted-search-after-success")
             if r.successors and nE <= (4 if tier == "quick" else 5):
                 for limit in ((1,) if tier == "quick" or nE > 4 else (1, 2)):
                     rm = mcmc.explore_step(state, state, shapes0, names, target, 0, conv_limit=limit,
@@ -272,8 +284,10 @@ def replay(v):
     shapes0 = mcmc.motif_shapes(state)
     target = mcmc.make_target(state, names, "uniform")
     extra = v.get("extra", "")
-    conv = int(extra.split("=")[1]) if extra.startswith("convergence_limit") else 0
-    sl = 1 if extra.startswith("search_limit=1") else 25
+    import re
+    m = re.search(r"convergence_limit=(\d+)", extra)
+    conv = int(m.group(1)) if m else 0
+    sl = 1 if "search_limit=1" in extra else 25
     registry = mcmc.Registry()
     initial = state
     for choices in v.get("history", []):
